@@ -846,21 +846,20 @@ func wTemplate(conf wconf, kind, cut, mid int, ek string) wcase {
 		step("s2")
 		step("s3")
 		ru.flushIfQueued(step)
-		step(fmt.Sprintf("p1:%d", conf.lens[0]))
-		step("e1:ok")
+		if w := ru.heldOf(1); w != nil {
+			step(fmt.Sprintf("p1:%d", conf.lens[0]))
+			if w.off == len(w.p) { // (a writer that puts the batch into ONE Write: frame 1 is out, the Write goes on)
+				step("e1:ok")
+			}
+		}
 		for _, c := range [][]int{{1, 2, 3}, {1}, {3}}[mid] {
 			step(fmt.Sprintf("c%d", c))
 		}
-		if w := ru.heldOf(2); w != nil {
-			c2 := imin(cut, conf.lens[1]-1)
-			if ek == "ok" {
-				c2 = conf.lens[1]
-			}
-			if c2 > 0 {
-				step(fmt.Sprintf("p2:%d", c2))
-			}
-			step("e2:" + ek)
+		budget := imin(cut, conf.lens[1]-1)
+		if ek == "ok" {
+			budget = -1
 		}
+		ru.drainCut(&budget, ek)
 		ru.flushIfQueued(step)
 		ru.serve()
 	case 4:
